@@ -24,6 +24,9 @@ class AnchorLost(Exception):
 # calls
 
 
+_PRIM_SIZES = {"u8": 1, "i8": 1, "bool": 1, "u16": 2, "i16": 2, "u32": 4, "i32": 4, "u64": 8, "i64": 8, "u128": 16, "i128": 16}
+
+
 class Call:
     __slots__ = ("body", "bb", "fn", "path", "gargs", "resolved", "trait", "self_ty", "args", "dst",
                  "target", "span", "exp", "local", "func_op")
@@ -675,6 +678,9 @@ class Body:
         args = [self.operand_term(a) for a in c.args]
         if c.fn is None:
             return ("call", bb, None, args, None)
+        if c.path in ("core::mem::size_of", "std::mem::size_of") and not args and len(c.gargs) == 1 and c.gargs[0] in _PRIM_SIZES:
+            # `size_of::<u16>()` is the constant 2
+            return ("const", "usize", _PRIM_SIZES[c.gargs[0]], None, None)
         if c.path == "core::ops::FromResidual::from_residual" and args:
             # `?` applied to a value that is known to be Err(e) (result of an inlined helper): Err(From::from(e))
             a = peel(args[0])
@@ -1227,6 +1233,13 @@ class Facts:
             for (bb, j, dst, rv, s) in b.stores():
                 if bb not in b.reachable:
                     continue
+                # `let Self { flag, .. } = self; *flag = false;`: a store through a reference that was taken of a field
+                if dst["proj"] and dst["proj"][0] == "deref":
+                    ds_ = b.defs().get(dst["l"], [])
+                    if len(ds_) == 1 and ds_[0][0] == "stmt":
+                        rv_ = b.blocks[ds_[0][1]]["stmts"][ds_[0][2]]["rv"]
+                        if "ref" in rv_ and rv_.get("mut") and any(isinstance(e, dict) and "f" in e for e in rv_["ref"]["proj"]):
+                            dst = {"l": rv_["ref"]["l"], "proj": list(rv_["ref"]["proj"]) + list(dst["proj"][1:]), "ty": dst.get("ty")}
                 last = None
                 for e in dst["proj"]:
                     if isinstance(e, dict) and "f" in e:
